@@ -24,7 +24,7 @@ class C13(Check):
     SHRINK = False
     RULE = ('time-stamp sequences of length 1..60 with dyadic jitter around the period (gaps exactly at both tolerance ends included), periods and units '
             'from {1s, 500ms, 250ms, 2s, 4000us, ...}, default unit s/ms/us, dyadic tolerances in [0,1]; online (one update per stamp) and offline (time column), '
-            'decimal periods / tolerances with the period in a larger unit than the integer time-stamps and gaps exactly on the tolerance interval; dedicated and combined specification objects, offline objects that already evaluated another badly sampled data set; counter compared with the count of out-of-tolerance gaps computed exactly; values compared with a '
+            'decimal periods / tolerances with the period in a larger unit than the integer time-stamps and gaps exactly on the tolerance interval; dedicated and combined specification objects, offline objects that already evaluated another badly sampled data set; objects used once under another default unit whose spec.unit is then changed (no new set_sampling_period); counter compared with the count of out-of-tolerance gaps computed exactly; values compared with a '
             'run on perfectly periodic stamps; non-trivial = at least one gap out of tolerance and one inside; distinct by (stamps, period, unit, tolerance)')
 
     def gen_cases(self, rng, tier):
@@ -98,7 +98,15 @@ class C13(Check):
             cols = fml.gen_trace(rng, 1, n)
             cases.append({'f': f, 'n': n, 'nv': 1, 'cols': cols, 'ts': [float(x) for x in ts], 'period': [p, pu, tol], 'unit': du, 'prior': None, 'decimal': 2,
                           'expected': count_bad(P, T, ts), 'ngaps': n - 1, 'mon': rng.choice(['online', 'offline']), 'ctor': rng.choice(['split', 'combined'])})
-        return cases
+        # an object that is used once under another default unit (an evaluate() / two update()s and a reset(), so that a gap has been judged), whose
+        # default unit is then changed (spec.unit = ..) without set_sampling_period being called again: "the period in the unit of the time-stamps"
+        # is the unit the object has when the time-stamps are supplied (seeded change C13_A5: a period converted once and cached)
+        extra = []
+        for c in cases:
+            if c['n'] >= 2 and not c.get('prior') and rng.random() < 0.3:
+                u0 = rng.choice([u for u in ['s', 'ms', 'us'] if u != c['unit']])
+                extra.append(dict(c, unit0=u0))
+        return cases + extra
 
     def model_lines(self, c):
         P = Fraction(str(c['period'][0])) * U[c['period'][1]] / U[c['unit']]
@@ -110,13 +118,19 @@ class C13(Check):
     def impl_cases(self, c):
         base = {'vars': ['xa'], 'spec': 'out = ' + fml.to_text(c['f']), 'unit': c['unit'], 'period': c['period'], 'ctor': c['ctor']}
         n = c['n']
+        sw = [['set_unit', c['unit']]] if c.get('unit0') else []
         if c['mon'] == 'online':
-            a = dict(base, monitor='discrete-online', calls=[['update', c['ts'][k], [['xa', c['cols'][0][k]]]] for k in range(n)] + [['counter']])
+            pre = [['update', 0.0, [['xa', 0.0]]], ['update', 3.0, [['xa', 1.0]]], ['reset']] if sw else []
+            a = dict(base, monitor='discrete-online', calls=pre + sw + [['update', c['ts'][k], [['xa', c['cols'][0][k]]]] for k in range(n)] + [['counter']])
             b = dict(base, monitor='discrete-online', calls=[['update', k * 1.0, [['xa', c['cols'][0][k]]]] for k in range(n)] + [['counter']])
         else:
             pre = [['evaluate', c['prior']]] if c.get('prior') else []
+            if sw:
+                pre = [['evaluate', {'time': [0.0, 3.0, 4.0], 'xa': [0.0, 1.0, 0.0]}]] + sw
             a = dict(base, monitor='discrete-offline', calls=pre + [['evaluate', {'time': c['ts'], 'xa': c['cols'][0]}], ['counter']])
             b = dict(base, monitor='discrete-offline', calls=[['evaluate', {'time': [k * 1.0 for k in range(n)], 'xa': c['cols'][0]}], ['counter']])
+        if sw:
+            a['unit'] = c['unit0']
         return [a, b]
 
     def judge(self, c, mlines, ires):
@@ -125,7 +139,7 @@ class C13(Check):
             return 'model-error', mlines
         model_cnt = int(m['COUNT'][0])
         spec_cnt = int(m['SPEC'][0])
-        det = {'period': c['period'], 'unit': c['unit'], 'monitor': c['mon'], 'ctor': c['ctor'], 'stamps': c['ts'], 'evaluated_before': c.get('prior'),
+        det = {'period': c['period'], 'unit': c['unit'], 'monitor': c['mon'], 'ctor': c['ctor'], 'stamps': c['ts'], 'evaluated_before': c.get('prior'), 'default_unit_during_an_earlier_use': c.get('unit0'),
                'expected': {'source': 'number of gaps outside [P(1-tol), P(1+tol)], P in time-stamp units', 'counter': c['expected']}}
         a, b = ires
         for i in (a, b):
@@ -138,6 +152,8 @@ class C13(Check):
         if cnt != c['expected']:
             return 'violation', dict(det, observed={'counter': cnt})
         va = [r['value'] for r in a['calls'][:-1]]
+        if c.get('unit0') and c['mon'] == 'online':
+            va = va[4:]      # the two updates, the reset and the unit change that precede the run
         vb = [r['value'] for r in b['calls'][:-1]]
         if c['mon'] == 'offline':
             va = [p[1] for p in va[-1]]
@@ -152,16 +168,16 @@ class C13(Check):
         return 0 < c['expected'] < c['ngaps']
 
     def features(self, c):
-        return ['unit_' + c['unit'], 'punit_' + c['period'][1], c['mon'], c['ctor'], 'tol_%s' % c['period'][2], 'n1' if c['n'] == 1 else 'n>1'] + (['second_evaluate'] if c.get('prior') else []) + (['decimal_boundary'] if c.get('decimal') == 1 else []) + (['decimal_stamps'] if c.get('decimal') == 2 else [])
+        return ['unit_' + c['unit'], 'punit_' + c['period'][1], c['mon'], c['ctor'], 'tol_%s' % c['period'][2], 'n1' if c['n'] == 1 else 'n>1'] + (['second_evaluate'] if c.get('prior') else []) + (['unit_changed_between_uses'] if c.get('unit0') else []) + (['decimal_boundary'] if c.get('decimal') == 1 else []) + (['decimal_stamps'] if c.get('decimal') == 2 else [])
 
     def key(self, c):
-        return json.dumps([c['ts'], c['period'], c['unit'], c['mon'], c['ctor'], c.get('prior')])
+        return json.dumps([c['ts'], c['period'], c['unit'], c['mon'], c['ctor'], c.get('prior'), c.get('unit0')])
 
     def describe(self, c):
         return {'stamps': c['ts'], 'period': c['period'], 'unit': c['unit'], 'monitor': c['mon'], 'expected_counter': c['expected']}
 
     def signature(self, c, detail):
-        return {'mon': c['mon'], 'ctor': c['ctor'], 'unit_eq': c['unit'] == c['period'][1], 'ops': [], 'second_evaluate': bool(c.get('prior'))}
+        return {'mon': c['mon'], 'ctor': c['ctor'], 'unit_eq': c['unit'] == c['period'][1], 'ops': [], 'second_evaluate': bool(c.get('prior')), 'unit_changed': bool(c.get('unit0'))}
 
 
 def main(tier, seed, replay=None):
